@@ -19,10 +19,15 @@ class Compiled:
         self.src = os.path.join(self.dir, "src")
         os.makedirs(self.src)
         self.texts = texts if texts is not None else render_bp.render_unit(unit, style)
-        bpapi.write_files(self.src, self.texts)
         import zlib
 
-        self.lint_first = zlib.crc32("".join(sorted(self.texts.values())).encode("utf-8", "replace")) % 4 != 0
+        crc = zlib.crc32("".join(sorted(self.texts.values())).encode("utf-8", "replace"))
+        # one unit in six (chosen by its text) has its schema files stored under OTHER names elsewhere and reached through symbolic
+        # links of the expected names (vendored schemas): the name a schema is given on the command line / in an import is the
+        # link's name, and that is the name output files and include lines are derived from
+        self.symlinked = (crc // 4) % 6 == 0
+        bpapi.write_files(self.src, self.texts, symlinked=self.symlinked)
+        self.lint_first = crc % 4 != 0
         self.protos: Dict[str, Any] = {}
         self.outdirs: Dict[str, str] = {}
         self._pymods: Optional[pyexec.PyModules] = None
